@@ -56,6 +56,13 @@ class Module:
                 if isinstance(b, list) and len(b) > 1 and any(isinstance(x, ast.Pass) for x in b):
                     kept = [x for x in b if not isinstance(x, ast.Pass)]
                     setattr(node, f, kept if kept else [b[0]])
+        # helper functions the reference tree does not have are written back at their call sites (undoes "extract method")
+        self.inlined_helpers = []
+        if os.environ.get("PGVERIF_NO_ALPHA") != "1":
+            from . import alpha
+            self.inlined_helpers = alpha.inline_new_helpers(self.tree, rel)
+            if self.inlined_helpers:
+                ast.fix_missing_locations(self.tree)
         self._link()
         self._index: dict[str, ast.AST] = {}
         self._build(self.tree.body, "")
@@ -640,7 +647,7 @@ class Check:
         return [e for e in data.get("findings", []) if e.get("property") == self.pid]
 
     def finish(self) -> int:
-        for pref, n in self.floors.items():
+        for pref, n in ({} if getattr(self, "skip_floors", False) else self.floors).items():
             got = sum(1 for o in self.obs if o.rule.startswith(pref))
             if got < n:
                 raise AnalysisError(f"instance floor not met for rule {pref}: {got} < {n} "
@@ -748,13 +755,29 @@ def run_check(pid: str, fn, tier: str) -> int:
         return chk.finish()
     except AnalysisError as e:
         print(f"ANALYSIS-ERROR property={pid} {e}")
-        _write_error_evidence(chk, str(e))
-        return 2
+        return _finish_partial(chk, str(e))
     except Exception as e:  # internal error: never a silent pass, never a violation
         traceback.print_exc()
         print(f"ANALYSIS-ERROR property={pid} internal error: {type(e).__name__}: {e}")
-        _write_error_evidence(chk, f"internal error {type(e).__name__}: {e}")
-        return 2
+        return _finish_partial(chk, f"internal error {type(e).__name__}: {e}")
+
+
+def _finish_partial(chk: "Check", msg: str) -> int:
+    """the run stopped early: violations established before the stop are still violations (exit 1); otherwise exit 2"""
+    try:
+        viol = [o for o in chk.obs if o.status == VIOLATED]
+    except Exception:
+        viol = []
+    if viol:
+        try:
+            chk.skip_floors = True
+            code = chk.finish()
+            if code == 1:
+                return 1
+        except Exception:
+            pass
+    _write_error_evidence(chk, msg)
+    return 2
 
 
 def _write_error_evidence(chk: Check, msg: str):
